@@ -2074,7 +2074,8 @@ class PseudoNetCDFFile(PseudoNetCDFSelfReg, object):
                     sliceoi = []
                     for si in sliceo:
                         if np.isscalar(si):
-                            sliceoi.append([si])
+                            # length-1 slice keeps the axis
+                            sliceoi.append(slice(si, si + 1 or None))
                         elif isinstance(si, slice):
                             sliceoi.append(si)
                         else:
@@ -2082,8 +2083,16 @@ class PseudoNetCDFFile(PseudoNetCDFSelfReg, object):
                     sliceoi = tuple(sliceoi)
                     point_arrays.append(np.expand_dims(
                         varo[sliceoi], axis=concatax))
-                newvals = np.concatenate(point_arrays, axis=concatax)
+                if any([np.ma.isMaskedArray(pa) for pa in point_arrays]):
+                    newvals = np.ma.concatenate(point_arrays, axis=concatax)
+                else:
+                    newvals = np.concatenate(point_arrays, axis=concatax)
             else:
+                # scalars as length-1 slices so that numpy does not combine
+                # them with an index list as advanced (zipped) indices
+                sliceo = tuple([
+                    slice(si, si + 1 or None) if np.isscalar(si) else si
+                    for si in sliceo])
                 newvals = varo[sliceo]
             try:
                 newvaro[...] = newvals
